@@ -16,7 +16,7 @@ from ..fsm import Extracted, Machine, MState, extract, flag_constants
 from ..pm import AnalysisError, unparse
 from ..report import Check
 from ..sym import Resolver, Term, path_of, show, walk
-from . import shunting
+from . import pushdown, shunting
 from .common import const_value, loc, strip
 
 EXPLANATION = (
@@ -32,7 +32,7 @@ ASSUMPTIONS = [
     "token classes are disjoint (a token is not at once a keyword, a variable name, a hedge name and a term name)",
     "resource exhaustion (recursion depth of very long antecedents) is not decided",
 ]
-FLOORS = {"F1": 3, "F-end": 3, "X2": 30, "X3": 10, "X4": 6, "O9": 4}
+FLOORS = {"PD": 4, "PD2": 4, "F1": 3, "F-end": 3, "X2": 30, "X3": 10, "X4": 6, "O9": 4}
 
 ALLOWED = {"SyntaxError", "ValueError", "KeyError", "LookupError"}
 
@@ -271,6 +271,7 @@ def consequent_automaton(check: Check) -> None:
     m = Machine(fn, r, consts, svars, prop, None, make_atom_classifier(r, None))
     atoms = {"var": False, "is": False, "hedge": False, "any": False, "term": False, "and": False, "or": False, "with": False, "andor": False}
     classes = {"variable": dict(atoms, var=True), "is": dict(atoms, **{"is": True}), "hedge": dict(atoms, hedge=True),
+               "any": dict(atoms, hedge=True, any=True),  # in a consequent `any` is a hedge like every other: a term must follow
                "term": dict(atoms, term=True), "and": dict(atoms, **{"and": True}, andor=True), "other": dict(atoms)}
     ex = extract(m, head, classes, _initial(r, head, svars, consts))
 
@@ -279,7 +280,7 @@ def consequent_automaton(check: Check) -> None:
             return "IS", depth
         if s == "IS" and c == "is":
             return "HT", depth
-        if s == "HT" and c == "hedge":
+        if s == "HT" and c in ("hedge", "any"):
             return "HT", depth
         if s == "HT" and c == "term":
             return "AW", depth
@@ -690,9 +691,11 @@ def _may_raise(cg: CallGraph, q: str, depth: int = 0, seen: set | None = None) -
 
 
 # ----------------------------------------------------------------------------------------- O9 load atomicity
-def load_atomicity(check: Check) -> None:
+def load_atomicity(check: Check, only: str | None = None) -> None:
     p = check.program
     for qual, attr in (("Antecedent.load", "expression"), ("Consequent.load", "conclusions")):
+        if only is not None and qual != only:
+            continue
         fn = p.func(qual)
         r = Resolver(p, fn)
         cfg = r.cfg
@@ -727,6 +730,8 @@ def load_atomicity(check: Check) -> None:
                       f"self.{attr} is written once, after the last statement that can fail" if commit_last else
                       f"self.{attr} becomes non-empty before the last statement that can fail: a failed load can leave the rule reporting loaded",
                       loc(fn, stores[0] if stores else fn.node))
+    if only is not None:
+        return
     # is_loaded definitions
     for qual, attr in (("Antecedent.is_loaded", "expression"), ("Consequent.is_loaded", "conclusions")):
         fn = p.func(qual)
@@ -755,6 +760,8 @@ def run(check: Check) -> None:
     shunting.stack_safety(check, "Antecedent.load")
     shunting.parse_arity_guard(check)
     shunting.rejection_checks(check)
+    pushdown.infix_to_postfix(check)
+    pushdown.parse_postfix(check)
     constant_subscripts(check)
     load_atomicity(check)
     check.exhaustive_parts += ["parser automata: product with the grammar automaton over all token classes and end states"]
